@@ -114,6 +114,14 @@ func (w *Worker) N(quickTotal, thoroughTotal int) int {
 	return n
 }
 
+// AddEvaluations counts executions that are not whole Cases (e.g. the restarts
+// of a crash enumeration inside one workload case).
+func (w *Worker) AddEvaluations(n int64) {
+	w.mu.Lock()
+	w.rep.Evaluations += n
+	w.mu.Unlock()
+}
+
 // Count adds n to a named counter (reported in the evidence coverage).
 func (w *Worker) Count(name string, n int64) {
 	w.mu.Lock()
